@@ -18,6 +18,7 @@ except ImportError:  # pragma: no cover
 from collections import OrderedDict
 
 import attr
+import dateutil.tz
 import six
 import urllib3
 
@@ -121,10 +122,23 @@ class Serializable(object):  # pylint: disable=too-few-public-methods
             result = obj
         elif isinstance(obj, (bytes, bytearray)):
             result = bytes_to_hex_string(obj, separator=':', lowercase=False)
+        elif isinstance(obj, datetime.datetime):
+            result = str(Serializable._in_utc(obj))
         else:
             result = str(obj)
 
         return result
+
+    @staticmethod
+    def _in_utc(obj):
+        # equal instants have to give the same output whatever zone they were given in
+        if obj.tzinfo is None:
+            return obj
+
+        try:
+            return obj.astimezone(dateutil.tz.UTC)
+        except (OverflowError, ValueError):
+            return obj
 
     @staticmethod
     def _json_traverse(obj, result_func):
@@ -264,6 +278,8 @@ class Serializable(object):  # pylint: disable=too-few-public-methods
             return cls.post_text_encoder(obj.name, level)
         elif isinstance(obj, cls._MARKDOWN_RESULT_STRING_CLASSES):
             return False, str(obj)
+        elif isinstance(obj, datetime.datetime):
+            result = cls.post_text_encoder(Serializable._in_utc(obj), level)
         elif isinstance(obj, datetime.timedelta):
             return False, str(obj.seconds)
         elif isinstance(obj, CryptoDataParamsBase) and hasattr(obj, '__str__'):
